@@ -563,6 +563,10 @@ def c09_jobs(tier):
             script0="racq0,hold2", script1="racq0,hold1", script2="hold1,stop1,start1"),
         des("selfstop-p2", "endoflife", b, dl, procs=2, prios="0,0", budget=4, res=1, pool=2, ops=ops,
             script0="racq0,pacq2,tadd1,stopself", script1="waitp0,racq0,hold1"),
+        # waiters that line up before the process they wait for has even been started
+        des("waiters-before-start-p3", "endoflife,notif", b, dl, procs=3, prios="0,0,1", budget=3, autostart=2,
+            ops="hold0,hold1,waitp2,start2,stop2,tadd1,int0,exit,return,stopself",
+            script0="waitp2,hold1", script1="hold1,start2,hold1", script2="hold1,exit"),
         # holdings obtained by preemption (resource and pool units) and by a hand-over while waiting, held when the end comes
         des("preemptor-ends-p3", "endoflife", b, dl, procs=3, prios="0,1,2", budget=4, res=1, pool=2,
             ops="racq0,rpre0,rrel0,pacq1,ppre1,ppre2,prel1,hold0,hold1,stop2,stopself,exit,return,start2,int2",
